@@ -656,7 +656,7 @@ func coerceToAssoc(arg Object) (result Object) {
 	case HashTable:
 		list := make(List, 0, len(ta))
 		for k, v := range ta {
-			list = append(list, List{k, Tail{Value: v}})
+			list = append(list, Cons(k, v))
 		}
 		result = list
 	default:
